@@ -95,7 +95,9 @@ def build_lib(variant="plain"):
             logtxt += out
             if rc != 0:
                 return False, logtxt
-        rc, out = sh(["ninja", "-C", bdir, "xalan-c"], timeout=3000)
+        # the message-catalogue tool that runs during the build leaks; do not let LeakSanitizer fail the build
+        env = {"ASAN_OPTIONS": os.environ.get("ASAN_OPTIONS", "detect_leaks=0")} if variant == "asan" else None
+        rc, out = sh(["ninja", "-C", bdir, "xalan-c"], timeout=3000, env=env)
         logtxt += out[-4000:]
         return rc == 0, logtxt
 
